@@ -98,7 +98,8 @@ theorem checkAttributes_none (env : Env) (d : ClassDef) (n : Node) (ps : List (N
     (mapping : List (PyVal × PyVal)) (h : checkAttributes env d n ps mapping = none) :
     (∀ p ∈ d.params, (p.required = true → (dictGet mapping p.name).isSome = true) ∧
       (∀ v, dictGet mapping p.name = some v → typeMatches env v p.ty = true)) ∧
-    (∀ e ∈ mapping, ∃ k, e.1 = .scalar (.str k) ∧ (d.argNames.contains k = true ∨ d.takesExtra = true)) := by
+    (∀ e ∈ mapping, ∃ k, e.1 = .scalar (.str k) ∧
+      (d.argNames.contains k = true ∨ k = "self" ∨ d.takesExtra = true)) := by
   unfold checkAttributes at h
   dsimp only at h
   split at h
@@ -127,11 +128,13 @@ theorem checkAttributes_none (env : Env) (d : ClassDef) (n : Node) (ps : List (N
           simp only [hk] at this
           by_cases hc : d.argNames.contains k = true
           · exact Or.inl hc
-          · by_cases hx : d.takesExtra = true
-            · exact Or.inr hx
-            · have hm : k ∉ d.argNames := by simpa using hc
-              have hx' : d.takesExtra = false := by simpa using hx
-              simp [hm, hx'] at this
+          · by_cases hs : k = "self"
+            · exact Or.inr (Or.inl hs)
+            · by_cases hx : d.takesExtra = true
+              · exact Or.inr (Or.inr hx)
+              · have hm : k ∉ d.argNames := by simpa using hc
+                have hx' : d.takesExtra = false := by simpa using hx
+                simp [hm, hx', hs] at this
         | int i => simp [hk] at this
         | float r a => simp [hk] at this
         | bool b => simp [hk] at this
